@@ -404,8 +404,75 @@ class Models:
             srt = self.solver_sort(I, items, keys, rev)
             if srt is not None:
                 return PyList(srt)
+        r = self.sort_by_enumerated_key(I, s, key, rev)
+        if r is not None:
+            return r
         # not modelled: the result may be stored but any inspection of it is unsupported
         return LazyUnsupported(f"sorted over {type(args[0]).__name__}")
+
+    def sort_by_enumerated_key(self, I, s, key, rev):
+        """sorted() of a symbolic-length sequence whose element i is a string key kkey(i) of a dict (insertion-order enumeration of
+        pairwise distinct keys), or a tuple led by it, and depends on i only through that key: the result enumerates the same
+        elements along the dict's key-sorted enumeration (ties never reach the later tuple components: keys are distinct)."""
+        from .orderfree import TOKEN
+        from .symtheory import StrV
+
+        if not isinstance(s, SSeq) or key is not None or rev or isinstance(s.length, int):
+            return None
+        c = z3.Int(I.path.names.fresh("sort_probe"))
+        try:
+            el = s.at(c)
+        except Exception:
+            return None
+        lead = el[0] if isinstance(el, tuple) and el else el
+        if not isinstance(lead, StrV) or not z3.is_app(lead.z) or lead.z.num_args() != 1 or not z3.eq(lead.z.arg(0), c):
+            return None
+        fn = lead.z.decl()
+        reg = I.path.ghost.get("order_enums", {})
+        if not TOKEN.match(fn.name()) or fn.name() not in reg:
+            return None
+        skey = reg[fn.name()](I.path)
+        probe_id = c.get_id()
+
+        def mentions_probe(v):
+            found = []
+
+            def walk(t):
+                stack, seen = [t], set()
+                while stack:
+                    e = stack.pop()
+                    if e.get_id() in seen:
+                        continue
+                    seen.add(e.get_id())
+                    if e.get_id() == probe_id:
+                        found.append(1)
+                        return
+                    if z3.is_quantifier(e):
+                        stack.append(e.body())
+                    elif z3.is_app(e):
+                        stack.extend(e.children())
+
+            def vals(x):
+                if z3.is_expr(x):
+                    walk(x)
+                elif isinstance(x, (tuple, list)):
+                    for y in x:
+                        vals(y)
+                else:
+                    for attr in ("z", "k", "term"):
+                        t = getattr(x, attr, None)
+                        if z3.is_expr(t):
+                            walk(t)
+
+            vals(v)
+            return bool(found)
+
+        j0 = z3.Int(I.path.names.fresh("sort_j"))
+        if mentions_probe(subst(el, [(fn(c), skey(j0))])):
+            return None  # the element depends on the position itself, not only on the key
+        out = SSeq(s.length, lambda j: subst(el, [(fn(c), skey(to_int(j)))]), f"sorted({s.desc})")
+        out.pvc_type = "list"
+        return out
 
     def solver_sort(self, I, items, keys, rev):
         """Sort a concrete-length list whose keys are opaque strings (or tuples led by one) when the path condition fixes their order."""
